@@ -77,7 +77,7 @@ N_REAL = {'quick': 36, 'thorough': 200}
 N_PAR = {'quick': 160, 'thorough': 1500}
 N_PARREAD = {'quick': 60, 'thorough': 500}
 
-# the first four are regression cases of defects repaired in /repo (99b7eb3, 99b7eb3, 5c828cd, 3b6f467): they must hold
+# the first four are regression cases of defects repaired in /repo (99ee103, 99ee103, e4d29b3, 652f296): they must hold
 DIRECTED = [
     'parameters-dump-installed-tomlkit', 'biogeme-default-parameter-file', 'recycle-beyond-100-versions',
     'latex-exponent-values', 'base-and-00-present', 'backup-twice', 'f12-shared-prefix', 'active-bound-roundtrip',
@@ -929,6 +929,11 @@ def run_real(case, rec, spec=None, hist=None):
             vd = [db.EstimationValidation(estimation=df.iloc[:half].copy(), validation=df.iloc[half:].copy()),
                   db.EstimationValidation(estimation=df.iloc[half:].copy(), validation=df.iloc[:half].copy())]
             out, err, new, _, _ = monitored(ctx, 'validate', lambda: bg.validate(r, vd))
+            if err is not None and type(err).__name__ == 'OptimizationError':
+                # the optimiser gave up under the algorithm settings of the biogeme.toml in the directory: an estimation
+                # failure, outside C14 (the never-overwrite monitors above have judged the call all the same)
+                rec.c('validate_estimation_failed_not_judged')
+                continue
             if unexpected(ctx, 'validate', err):
                 continue
             prot = [f for f in new if _ext(f) in PROTECTED]
@@ -1100,7 +1105,7 @@ def run_directed(case, rec):
         ctx = run_par(case, rec, values=defaults)
         return ctx
     if name == 'biogeme-default-parameter-file':
-        # regression of 99b7eb3: BIOGEME(database, formula) in an empty directory creates biogeme.toml; a second object
+        # regression of 99ee103: BIOGEME(database, formula) in an empty directory creates biogeme.toml; a second object
         # reads it back unchanged; a user-written biogeme.toml is honoured and left alone
         d = _scratch(case)
         ctx = Ctx(rec, d, {'directed': name})
